@@ -45,7 +45,7 @@ def _parse(out, res):
     if m:
         res.generated = max(res.generated, int(m.group(1)))
         res.traces_generated = int(m.group(2))
-    for m in re.finditer(r'^<(\w+) line \d+, col \d+ to line \d+, col \d+ of module (\w+)>: (\d+):(\d+)', out, re.M):
+    for m in re.finditer(r'^<(\w+) line \d+, col \d+ to line \d+, col \d+ of module (\w+)(?: \([\d ]+\))?>: (\d+):(\d+)', out, re.M):
         name = m.group(1)
         d, t = int(m.group(3)), int(m.group(4))
         od, ot = res.coverage.get(name, (0, 0))
